@@ -140,9 +140,14 @@ class Interp(EngineBase):
         x = z3.Int(fresh_name('dc'))
         saved = self.st.locals.get(g.target.id, NotImplemented)
         self.st.locals[g.target.id] = self.elem_value(src, x)
-        k = self.as_int_term(self.ev(e.key))
-        v = self.ev(e.value)
-        vt = self.as_int_term(v)
+        self.bag_facts(src)
+        self.guards.append(z3.Select(src.cnt, x) > 0)
+        try:
+            k = self.as_int_term(self.ev(e.key))
+            v = self.ev(e.value)
+            vt = self.as_int_term(v)
+        finally:
+            self.guards.pop()
         if saved is NotImplemented:
             del self.st.locals[g.target.id]
         else:
